@@ -181,7 +181,7 @@ def runLOCKS (toks : List String) : String :=
   match toks with
   | [fxs, call, cfg, tk] =>
     match callOfName call with
-    | some c => " ".intercalate ((Locks.program (fxs.toList.contains 'h') c (cfg = "multi") (tk = "ticker")).map lactName)
+    | some c => " ".intercalate ((Locks.program (if fxs = "FX=current" then Locks.currentF8 else fxs.toList.contains 'h') c (cfg = "multi") (tk = "ticker")).map lactName)
     | none => "bad-op"
   | _ => "bad-op"
 
@@ -308,7 +308,7 @@ def runADAPT (rest : String) : String :=
     match (hdr.trimAscii.toString.splitOn " ").filter (· ≠ "") with
     | [fx, start] =>
       let has (c : Char) := fx.toList.contains c
-      let afx : Adaptors.AFix := { f16 := has 'l', f28 := has 'm' }
+      let afx : Adaptors.AFix := if fx = "FX=current" then Adaptors.AFix.current else { f16 := has 'l', f28 := has 'm' }
       match start.toNat?, (evs.filter (fun e => e.trimAscii.toString ≠ "")).mapM (fun e => parseEv ((e.trimAscii.toString.splitOn " ").filter (· ≠ ""))) with
       | some p, some es => " ".intercalate ((Adaptors.run afx p es).map toString)
       | _, _ => "bad-op"
